@@ -200,7 +200,7 @@ impl<'a> Gen<'a> {
         let acx = self.arg_cx(cx);
         let a = self.term(&acx, &Ty::Int, s[0]);
         if matches!(op, BinOp::Div | BinOp::Rem) {
-            if self.cfg.unsafe_div && self.rng.chance(1, 2) {
+            if self.cfg.unsafe_div && !cx.pure && self.rng.chance(1, 2) {
                 self.feat("div_unguarded");
                 let b = self.term(&acx, &Ty::Int, s[1]);
                 return Tm::Op(bx(a), op, bx(b));
@@ -321,7 +321,7 @@ impl<'a> Gen<'a> {
     }
 
     fn preinstantiated(&self, ty: &Ty) -> bool {
-        if *ty == Ty::Int { return true; }
+        if *ty == Ty::Int || self.inst_stack.contains(ty) { return true; }
         let cur = self.defs[self.st.idx].order;
         let mut set = HashSet::new();
         for d in &self.defs {
@@ -337,8 +337,10 @@ impl<'a> Gen<'a> {
         let xs = self.xtors(ty);
         self.feat("new");
         if xs.is_empty() { self.feat("new_empty"); return Tm::New(vec![]); }
-        let s = self.split(size.max(xs.len() + 1) - 1, xs.len());
+        let mut s = self.split(size.max(xs.len() + 1) - 1, xs.len());
+        if size > 1 { for v in s.iter_mut() { *v = (*v).max(3).min(size - 1); } }
         let mut clauses = Vec::new();
+        self.inst_stack.push(ty.clone());
         for (i, x) in xs.iter().enumerate() {
             let mut ccx = self.closure_cx(cx);
             let mut binders: Vec<String> = Vec::new();
@@ -359,6 +361,7 @@ impl<'a> Gen<'a> {
             };
             clauses.push(Clause { xtor: x.name.clone(), binders, body });
         }
+        self.inst_stack.pop();
         if clauses.len() > 1 && self.rng.chance(1, 4) {
             self.feat("new_clauses_reordered");
             let n = clauses.len();
@@ -409,12 +412,67 @@ impl<'a> Gen<'a> {
         self.feat("label");
         if *ty != Ty::Int { self.feat("label_at_object_type"); }
         // classic shape `label a { f(.., a) }`
-        if self.rng.chance(1, 3) {
+        if self.rng.chance(1, 2) {
             if let Some(t) = self.gen_call_filtered(&lcx, ty, size - 1, true) { self.feat("label_passed_to_call"); return Tm::Label(a, bx(t)); }
+        }
+        // hand the label to a constructor field / destructor argument of covariable type
+        if size >= 4 && self.rng.chance(1, 2) {
+            if let Some(t) = self.steer_label(&lcx, ty, &a, size - 1) { return Tm::Label(a, bx(t)); }
+        }
+        // a conditional jump to the label
+        if size >= 5 && self.rng.chance(1, 3) {
+            let s = self.split(size - 2, 3);
+            let ccx = self.cond_cx(&lcx);
+            let c = self.term(&ccx, &Ty::Int, s[0].min(5));
+            let v = self.term(&ccx, ty, s[1]);
+            let v = self.wrap_for_checker(&ccx, ty, v);
+            let rest = self.term(&lcx, ty, s[2]);
+            let cmp = *self.rng.pick(&[Cmp::Eq, Cmp::Ne, Cmp::Lt, Cmp::Ge]);
+            self.feat("goto"); self.feat("label_used_by_goto");
+            let (thn, els) = if self.rng.chance(1, 2) { (Tm::Goto(a.clone(), bx(v)), rest) } else { (rest, Tm::Goto(a.clone(), bx(v))) };
+            return Tm::Label(a, bx(Tm::If { cmp, fst: bx(c), snd: None, zero_left: self.rng.chance(1, 2), thn: bx(thn), els: bx(els) }));
         }
         let body = self.term(&lcx, ty, size - 1);
         if mentions_goto(&body, &a) { self.feat("label_used_by_goto"); } else { self.feat("label_unused"); }
         Tm::Label(a, bx(body))
+    }
+
+    /// `label a { let d: D = C(.., a, ..); rest }` or a destructor call that receives `a`
+    fn steer_label(&mut self, lcx: &Cx, ty: &Ty, a: &str, size: usize) -> Option<Tm> {
+        let mut cands: Vec<(Ty, usize)> = Vec::new();
+        for t in self.pool.clone() {
+            for (i, x) in self.xtors(&t).iter().enumerate() {
+                if x.fields.iter().any(|(_, cns, fty)| *cns && fty == ty) && x.fields.iter().all(|(_, cns, fty)| !*cns || !visible(lcx, Some(fty), true).is_empty()) { cands.push((t.clone(), i)); }
+            }
+        }
+        if cands.is_empty() || lcx.pure { return None; }
+        let (t, i) = cands[self.rng.below(cands.len())].clone();
+        let xs = self.xtors(&t);
+        let x = &xs[i];
+        let acx = self.arg_cx(lcx);
+        let mut args = Vec::new();
+        for (_, cns, fty) in &x.fields {
+            if *cns {
+                if fty == ty { args.push(Tm::Var(a.to_string())); } else { let ks = visible(lcx, Some(fty), true); args.push(Tm::Var(ks[self.rng.below(ks.len())].name.clone())); }
+            } else { args.push(self.term(&acx, fty, 2)); }
+        }
+        if self.is_codata(&t) {
+            if self.cfg.effect_sequenced { return None; }
+            self.feat("dtor_call"); self.feat("dtor_call_with_args"); self.feat("dtor_with_covariable_arg"); self.feat("label_passed_to_dtor");
+            let scrut = self.term(&acx, &t, (size / 2).max(1));
+            let ret = x.ret.clone().unwrap();
+            let call = Tm::Dtor(bx(scrut), x.name.clone(), Self::targs(&t), args);
+            if ret == *ty { return Some(call); }
+            let r = self.binder(lcx, &ret, false, BK::Let, &[]);
+            let rest = self.term(&extend(lcx, &r, false, &ret), ty, (size / 2).max(1));
+            self.feat(if ret == Ty::Int { "let_int" } else if self.is_codata(&ret) { "let_codata" } else { "let_data" });
+            Some(Tm::Let(r, ret, bx(call), bx(rest)))
+        } else {
+            self.feat("ctor_nary"); self.feat("ctor_with_covariable_arg"); self.feat("label_passed_to_ctor"); self.feat("let_data");
+            let d = self.binder(lcx, &t, false, BK::Let, &[]);
+            let rest = self.term(&extend(lcx, &d, false, &t), ty, (size * 2 / 3).max(2));
+            Some(Tm::Let(d, t.clone(), bx(Tm::Ctor(x.name.clone(), args)), bx(rest)))
+        }
     }
 
     fn gen_goto(&mut self, cx: &Cx, size: usize) -> Option<Tm> {
